@@ -9,6 +9,7 @@ import Driver.Filter
 import Driver.Dav
 import Driver.AuthGate
 import Driver.PropsReq
+import Driver.Prefilter
 import Driver.Sync
 import Driver.Cache
 import Driver.Skeleton
@@ -29,6 +30,7 @@ def dispatch (j : Json) : Json :=
   | "skeleton" => Driver.handleSkeleton j
   | "fold" => Driver.handleFold j
   | "propsreq" => Driver.handlePropsReq j
+  | "prefilter" => Driver.handlePrefilter j
   | "ping" => Driver.obj [("r", Json.str "pong")]
   | _ => Driver.obj [("error", Json.str "bad-model")]
 
